@@ -51,12 +51,15 @@ def tasks(tier):
         cfg = dict(M=2, alphabet=ENDINGS, breaker=BRK[init], max_unknown=None, abort=True,
                    handler="call", attempt_hooks="call" if not e.startswith(("RetryPolicy", "AsyncRetryPolicy")) else "call")
         out.append({"family": "endings", "cfg": cfg, "entry": e, "bound": nf, "weight": 3})
-        fault_sets = [[(s, i, "RuntimeError")] for s in SITES for i in (0, 1, 2)]
+        fault_sets = [[(s, i, t)] for s in SITES for i in (0, 1, 2)
+                      for t in ("RuntimeError", "AbortRetryError", "KeyboardInterrupt",
+                                "CancelledError", "GeneratorExit")]
         if tier == "thorough":
             fault_sets += [[(s1, 0, "RuntimeError"), (s2, i, "ValueError")]
                            for s1 in SITES for s2 in SITES for i in (0, 1)]
-            fault_sets += [[(s, i, t)] for s in ("classifier", "aend", "astart") for i in (0, 1)
-                           for t in ("KeyboardInterrupt", "CancelledError", "GeneratorExit")]
+            fault_sets += [[(s, i, t)] for s in SITES for i in (0, 1)
+                           for t in ("CircuitOpenError", "RetryExhaustedError", "SystemExit",
+                                     "StopIteration", "TimeoutError")]
         for fs in fault_sets:
             cfg2 = dict(cfg, alphabet=["ok", "x:T", "r:T", "x:P"], faults=fs)
             out.append({"family": "callback-faults", "cfg": cfg2, "entry": e, "bound": 0})
@@ -64,7 +67,8 @@ def tasks(tier):
         cfg = dict(M=1, alphabet=ENDINGS0, breaker=BRK[init], abort=True, attempt_hooks="call")
         out.append({"family": "endings-noretry", "cfg": cfg, "entry": e, "bound": nf})
         for s, i in itertools.product(["astart", "aend", "abort_if"], [0, 1]):
-            for t in ["RuntimeError"] + (["KeyboardInterrupt", "CancelledError"] if tier == "thorough" else []):
+            for t in ["RuntimeError", "AbortRetryError", "KeyboardInterrupt", "CancelledError",
+                      "GeneratorExit"]:
                 cfg2 = dict(cfg, alphabet=["ok", "x:T", "x:P", "abort"], faults=[(s, i, t)])
                 out.append({"family": "callback-faults-noretry", "cfg": cfg2, "entry": e, "bound": 0})
     # async: exception thrown into the coroutine / close() at each suspension point
